@@ -87,8 +87,34 @@ impl Parse for ItemPath {
     }
 }
 
+/// How deeply pointers and arrays may be nested in one type. The parser (and everything that
+/// walks a type afterwards) recurses once per level, so the nesting has to be bounded for a
+/// hostile input to be answered with an error instead of an exhausted stack.
+const MAX_TYPE_NESTING: usize = 64;
+
+thread_local! {
+    static TYPE_NESTING: std::cell::Cell<usize> = const { std::cell::Cell::new(0) };
+}
+
 impl Parse for Type {
     fn parse(input: ParseStream) -> Result<Self> {
+        struct Level;
+        impl Drop for Level {
+            fn drop(&mut self) {
+                TYPE_NESTING.with(|n| n.set(n.get() - 1));
+            }
+        }
+        let depth = TYPE_NESTING.with(|n| {
+            n.set(n.get() + 1);
+            n.get()
+        });
+        let _level = Level;
+        if depth > MAX_TYPE_NESTING {
+            return Err(input.error(format!(
+                "type is nested more than {MAX_TYPE_NESTING} levels deep"
+            )));
+        }
+
         let lookahead = input.lookahead1();
         if lookahead.peek(kw::unknown) {
             input.parse::<kw::unknown>()?;
@@ -576,6 +602,36 @@ impl Parse for Module {
     }
 }
 
+/// How deeply brackets of any kind may be nested in a file: the nesting of a type
+/// (`MAX_TYPE_NESTING`) plus the few levels of blocks and parameter lists around it.
+const MAX_GROUP_NESTING: usize = MAX_TYPE_NESTING + 16;
+
+/// `syn` buffers the tokens of a file with one stack frame per level of nested brackets, before
+/// any of the parsers in here get to see them: bound that nesting first, without recursing.
+fn check_group_nesting(tokens: &proc_macro2::TokenStream) -> Result<()> {
+    let mut open = vec![tokens.clone().into_iter()];
+    while let Some(innermost) = open.last_mut() {
+        match innermost.next() {
+            Some(proc_macro2::TokenTree::Group(group)) => {
+                if open.len() > MAX_GROUP_NESTING {
+                    return Err(syn::Error::new(
+                        group.span_open(),
+                        format!("brackets are nested more than {MAX_GROUP_NESTING} levels deep"),
+                    ));
+                }
+                open.push(group.stream().into_iter());
+            }
+            Some(_) => {}
+            None => {
+                open.pop();
+            }
+        }
+    }
+    Ok(())
+}
+
 pub fn parse_str(input: &str) -> Result<Module> {
-    syn::parse_str(input)
+    let tokens: proc_macro2::TokenStream = input.parse()?;
+    check_group_nesting(&tokens)?;
+    syn::parse2(tokens)
 }
